@@ -198,6 +198,7 @@ PLANS["C20"] = {
         AUX("scan", "scan", (30, 600), invariants=["InvAuxNoPanic"]),
         AUX("norm", "norm", (800, 20000), invariants=["InvAuxNoPanic"]),
         AUX("cursor", "cursor", (30, 600), invariants=["InvAuxNoPanic"]),
+        AUX("plan", "plan", (300, 6000), invariants=["InvAuxNoPanic"], chunk=150),
     ],
 }
 
@@ -208,6 +209,10 @@ PLANS["C02"] = {
     "stages": [
         T("twins", "twins", (14, 400), ["InvC02"], chunk=4),
         EDG("edges", ["InvC02"], ops=["Derived", "UpdateFunc", "Delete"], states=(25, 0), reads=(20, 250), writes=(6, 60)),
+        # the planner's own visitors, chained as getIndexQueries does: derived range is a superset
+        AUX("plan", "plan", (600, 15000), chunk=150),
+        MC("plan-laws", "MC_Plan", "MC_Plan_planq.cfg", "MC_Plan_plan.cfg", workers=12, timeout=1800),
+        AUX("plan-model", "plan", (300, 3000), chunk=150, invariants=["InvPlanModel"], advisory=True, seed_off=9),
         EDG("edges-bounds", ["InvC02"], ops=["Derived"], rich_states=40, states=(3, 30), reads=(0, 0), seed_off=5,
             event_re=r'^\{"op": "Derived", "c": "a", "q": \[\["where", \["(and|or)", \["un", "[a-z]+", \[120\], \["lit", [^\]]*\]\]\], \["un", "[a-z]+", \[120\], \["lit", [^\]]*\]\]\]\]\]\], "js"'),
     ],
@@ -351,3 +356,5 @@ PLANS["C07"] = {
 
 # model configurations shared by the quick checks (their emission is cached by `vcheck warm`)
 WARM = [EDG("warm", [])]
+WARM_MC = [LAWS(f) for f in ("values", "criteria", "norm", "paths")] + [MC_PROPS,
+           MC("plan-laws", "MC_Plan", "MC_Plan_planq.cfg", workers=12)]
